@@ -132,6 +132,9 @@ structure VM where
   cmapChars : Nat := 0
   cmapRanges : Nat := 0
   roots : Roots
+  /-- the procedures visited by the running `bind` (its `seen` map: position and length of each body);
+  empty outside `bind` -/
+  bindSeen : List (Nat × Nat × Nat) := []
   deriving Repr, Inhabited
 
 /-- the whole interpreter: data plus the control fields only `executeOne`, `Execute`,
